@@ -827,6 +827,7 @@ class MaterialIndexer(Indexer):
             for i in new_phases: data_by_phase[i] = SparseVector.from_size(size)
             phases = self._phases
             data.rows = [data_by_phase[i] for i in phases]
+            self._data_cache.clear()
             self._set_cache()
             
     def mix_from(self, others):
